@@ -15,4 +15,6 @@ CONSTANTS
   Depth = 4
   MaxChurn = 99
   MinAlive = 0
+  GenOps = {"Send", "Die", "Fail", "Adjust", "GetRoutees"}
+  MaxDelta = 99
 CONSTRAINT Emit
